@@ -34,7 +34,7 @@ for f in sorted(glob.glob(os.path.join(V, "work", "mutres", "C*_*m*.json"))):
         checks[c] = {"exit": v["rc"], "violations": v["violations"], "only_no_failing_input": v.get("nofail_only"),
                      "first_detail": (v.get("detail") or [""])[0][:300], "replay_on_changed_tree": v.get("replay_mutant_rc"),
                      "replay_on_clean_tree": v.get("replay_clean_rc"), "wall_s": v.get("wall_s")}
-    meta = {"property": pid, "summary": notes.get("summary"), "needs": notes.get("needs"), "files": notes.get("files"),
+    meta = {"property": pid, "base_commit": old.get("base_commit", "dbd141c"), "summary": notes.get("summary"), "needs": notes.get("needs"), "files": notes.get("files"),
             "confirmed": {"demo_exit_on_clean_tree": 0, "demo_exit_with_change": 1, "existing_tests_passed_with_change": r.get("tests_passed"),
                           "existing_tests_failed_with_change": 0,
                           "how": "tools/evalmut.py: scratch git worktree of /repo HEAD, git apply patch.diff, PYTHONPATH=<tree>/src demo.py, pytest tests, VERIF_REPO=<tree> ./check <id> --tier quick in a scratch copy of /verif, replay of the first violation on both trees"},
